@@ -92,10 +92,29 @@ fn status_line(rng: &mut Rng, word: &str, name: &str) -> Vec<u8> {
     format!("{prefix}SZS status {word} for {who}\n").into_bytes()
 }
 
+/// A proof log larger than a pipe buffer (70-260 KB).
+fn big_noise(rng: &mut Rng) -> Vec<u8> {
+    let mut out = vec![];
+    let target = 70_000 + rng.below(190_000) as usize;
+    let mut i = 0u64;
+    while out.len() < target {
+        out.extend_from_slice(format!("{i}. ! [X{i} : $int] : (p(X{i}) => q(X{i})) [resolution {},{}]\n", i / 2, i / 3).as_bytes());
+        i += 1;
+    }
+    out
+}
+
 pub fn theorem(rng: &mut Rng, name: &str, benign: bool) -> Outcome {
     let mut stdout = if benign { noise(rng, 6) } else { vec![] };
+    let big = benign && rng.pct(4);
+    if big && rng.pct(50) {
+        stdout.extend(big_noise(rng));
+    }
     let line = status_line(rng, "Theorem", name);
     stdout.extend_from_slice(&line);
+    if big && stdout.len() < 70_000 {
+        stdout.extend(big_noise(rng));
+    }
     if benign {
         stdout.extend(noise(rng, 6));
         if rng.pct(15) {
@@ -112,7 +131,7 @@ pub fn theorem(rng: &mut Rng, name: &str, benign: bool) -> Outcome {
         class: "Theorem".into(),
         proven: true,
         stdout,
-        stderr: if benign && rng.pct(30) { noise(rng, 3) } else { vec![] },
+        stderr: if benign && rng.pct(30) { if rng.pct(5) { big_noise(rng) } else { noise(rng, 3) } } else { vec![] },
         exit: Exit::Code(0),
         compute_steps: if benign { rng.below(40) as u32 } else { 0 },
         sim_ms: 1 + rng.below(900),
